@@ -657,11 +657,11 @@ theorem tuc_lines_buffered_eq_spec (regexOk : Arg → Bool) (hcre : regexOk char
   rfl
 
 /-- `tuc -l 2:` on `a⏎b⏎c⏎` prints `b⏎c⏎` (one line at a time) -/
-def exLines : Canon := { mode := .l, bounds := ['2', ':'] }
+def e2eLines : Canon := { mode := .l, bounds := ['2', ':'] }
 
-example : tucMain (fun _ => true) (canonArgv exLines) [[97, 10, 98], [10, 99, 10]] =
+example : tucMain (fun _ => true) (canonArgv e2eLines) [[97, 10, 98], [10, 99, 10]] =
     .run (Run.ok [98, 10, 99, 10]) := by
-  rw [tuc_lines_eq_spec (fun _ => true) rfl exLines (by decide +kernel) rfl rfl rfl rfl rfl rfl rfl rfl _
+  rw [tuc_lines_eq_spec (fun _ => true) rfl e2eLines (by decide +kernel) rfl rfl rfl rfl rfl rfl rfl rfl _
     (by decide +kernel) (by decide +kernel) (by decide +kernel)
     (fun _ _ => ⟨[{ l := .some 2, r := .cont, isLast := true }], by decide +kernel, by decide +kernel⟩)]
   decide +kernel
